@@ -1,6 +1,6 @@
 SPECIFICATION Spec
-CONSTANT L = 8
-CONSTANT D = 5
+CONSTANT L = 7
+CONSTANT D = 4
 CONSTANT MaxBlocks = 4
 CONSTANT MaxLen = 2
 CONSTRAINT Emit
